@@ -9,8 +9,13 @@ Section Refine.
   Variable lower : str -> str.
   Variable V : Type.
 
+  Lemma update_lowered items : forall d,
+    fold_left (fun d kv => dict_put (lower (fst kv)) (snd kv) d) items d =
+    fold_left (fun d (kv : str * V) => dict_put (fst kv) (snd kv) d) (map (fun kv => (lower (fst kv), snd kv)) items) d.
+  Proof. induction items as [|kv items IH]; intros d; [reflexivity|]. cbn [fold_left map fst snd]. apply IH. Qed.
+
   Lemma step_refines d o : step822 lower V d o = step_dict V d (lower_op lower V o).
-  Proof. destruct o; reflexivity. Qed.
+  Proof. destruct o; try reflexivity. cbn [step822 step_dict lower_op]. now rewrite update_lowered. Qed.
 
   (* any operation history: same observations, step by step, as a plain dict
      driven with the lower-cased keys - including the KeyError outcomes *)
